@@ -2,6 +2,7 @@ import Mathlib.Tactic
 import ExponaxModel.Model.Interp
 import ExponaxModel.Proofs.LayoutLemmas
 import ExponaxModel.Proofs.DFT
+import ExponaxModel.Proofs.InterpExact
 /-
 C15 — Fourier interpolation and resolution changes.
 Index part of `map_between_resolutions`: the block copy preserves wavenumbers (all parity
@@ -78,5 +79,54 @@ theorem C15_grid_reproduction (D N : ℕ) (hD : 0 < D) (hN : 0 < N) (x : ℕ →
 example : srcAxis 8 9 8 false 7 = some 6 := by decide
 example : (List.range 9).map (srcAxis 8 9 8 false) = [some 0, some 1, some 2, some 3, none, some 4, some 5, some 6, some 7] := by decide
 example : (List.range 8).map (srcAxis 7 8 9 false) = [some 0, some 1, some 2, some 3, none, some 6, some 7, some 8] := by decide
+
+/-! ### exactness and mean preservation, through the model routines themselves (`Proofs/Interp*.lean`)
+
+`Interp.BandLimitedN D Nold m u`: the transform of `u` vanishes at every stored mode with some `2|k_d| ≥ m`
+(`m = min Nold Nnew`: strictly below BOTH Nyquist wavenumbers).  `Interp.gridPoint D N s j` is the physical point
+`L·j_d/N` (`s = 2π/L`). -/
+
+/-- every resolution change preserves the mean of ANY real state — every D ≥ 1, every pair of resolutions ≥ 1, both
+    values of the Nyquist ("oddball") option -/
+theorem C15_mean_preserved (D Nold Nnew : ℕ) (hD : 0 < D) (ho : 0 < Nold) (hn : 0 < Nnew) (ob : Bool) (u : Array ℂ)
+    (hu : ∀ j < Nold ^ D, (u.getD j 0).im = 0) :
+    (∑ j ∈ Finset.range (Nnew ^ D), (Interp.mapBetween D Nold Nnew ob u).getD j 0) / (Nnew : ℂ) ^ D =
+      (∑ j ∈ Finset.range (Nold ^ D), u.getD j 0) / (Nold : ℂ) ^ D :=
+  Interp.I1_mean D Nold Nnew hD ho hn ob u hu
+
+/-- the Fourier interpolant reproduces every real state at its own grid points — every D, N -/
+theorem C15_interpolant_at_grid_points (D N : ℕ) (hD : 0 < D) (hN : 0 < N) (s : ℂ) (hs : s ≠ 0) (u : Array ℂ)
+    (hu : ∀ j < N ^ D, (u.getD j 0).im = 0) (j : ℕ) (hj : j < N ^ D) :
+    Interp.interpolate D N s u (Interp.gridPoint D N s j) = u.getD j 0 :=
+  Interp.I3_interpolate_grid D N hD hN s hs u hu j hj
+
+/-- mapping a band-limited state to ANY other resolution (finer or coarser, all parity combinations, N ± 1 included)
+    samples its own Fourier interpolant on the new grid — every D -/
+theorem C15_map_is_exact (D Nold Nnew : ℕ) (hD : 0 < D) (ho : 0 < Nold) (hn : 0 < Nnew) (hne : Nold ≠ Nnew) (ob : Bool)
+    (s : ℂ) (hs : s ≠ 0) (u : Array ℂ) (hb : Interp.BandLimitedN D Nold (min Nold Nnew) u) (j : ℕ)
+    (hj : j < Nnew ^ D) :
+    (Interp.mapBetween D Nold Nnew ob u).getD j 0
+      = Interp.interpolate D Nold s u (Interp.gridPoint D Nnew s j) :=
+  Interp.I4_exact_nd D Nold Nnew hD ho hn hne ob s hs u hb j hj
+
+/-- up-sampling from an odd grid needs no hypothesis on the state at all -/
+theorem C15_upsample_from_odd (D Nold Nnew : ℕ) (hD : 0 < D) (hodd : Nold % 2 = 1) (hlt : Nold < Nnew) (ob : Bool)
+    (s : ℂ) (hs : s ≠ 0) (u : Array ℂ) (j : ℕ) (hj : j < Nnew ^ D) :
+    (Interp.mapBetween D Nold Nnew ob u).getD j 0
+      = Interp.interpolate D Nold s u (Interp.gridPoint D Nnew s j) :=
+  Interp.I4_upsample_odd D Nold Nnew hD hodd hlt ob s hs u j hj
+
+/-- mapping there and back returns the original (1-D; up-then-down and down-then-up) -/
+theorem C15_round_trip_1d (Nold Nnew : ℕ) (hne : Nold ≠ Nnew) (ho : 0 < Nold) (hn : 0 < Nnew) (ob ob' : Bool)
+    (u : Array ℂ) (hu : ∀ j < Nold, (u.getD j 0).im = 0) (hb : Interp.BandLimited1 Nold (min Nold Nnew) u) (j : ℕ)
+    (hj : j < Nold) :
+    (Interp.mapBetween 1 Nnew Nold ob' (Interp.mapBetween 1 Nold Nnew ob u)).getD j 0 = u.getD j 0 :=
+  Interp.I2a_roundtrip Nold Nnew hne ho hn ob ob' u hu hb j hj
+
+/-- integer refinement of an odd grid keeps every original sample, for any real state -/
+theorem C15_refinement_keeps_samples (Nold p : ℕ) (ho : 0 < Nold) (hp : 2 ≤ p) (hodd : Nold % 2 = 1) (ob : Bool)
+    (u : Array ℂ) (hu : ∀ j < Nold, (u.getD j 0).im = 0) (j : ℕ) (hj : j < Nold) :
+    (Interp.mapBetween 1 Nold (p * Nold) ob u).getD (p * j) 0 = u.getD j 0 :=
+  Interp.I2b_subsample_odd Nold p ho hp hodd ob u hu j hj
 
 end Exponax
